@@ -102,9 +102,13 @@ pub mod idna {
     { unimplemented!() }
     }
 }
-// the hash a location entry is stored under: of its text when ASCII, of its (non-empty) punycode form otherwise
+// T (ASCII case folding): str::make_ascii_lowercase
+pub uninterp spec fn ascii_lower(s: Seq<char>) -> Seq<char>;
+// the hash a location entry is stored under: of its normal form - a hostname is case-insensitive and the page hostname it is compared
+// with is in lower case, an IDN in punycode - i.e. of its lower-cased text when ASCII, of its (non-empty) punycode form otherwise (the
+// IDNA mapping lower-cases)
 pub open spec fn loc_hash(l: &str) -> Option<Hash> {
-    if l.is_ascii() { Some(text_hash(l@)) }
+    if l.is_ascii() { Some(text_hash(ascii_lower(l@))) }
     else if idna_ascii(l@) is Some && idna_ascii(l@)->Some_0.len() > 0 { Some(text_hash(idna_ascii(l@)->Some_0)) }
     else { None }
 }
@@ -135,6 +139,8 @@ fn vf_sort<T: std::cmp::Ord>(v: &mut Vec<T>)
 fn vf_string_new() -> (r: String) ensures r@ == Seq::<char>::empty() { String::new() }
 #[verifier::external_body]
 fn vf_push_str(s: &mut String, t: &str) ensures final(s)@ == old(s)@ + t@ { s.push_str(t) }
+#[verifier::external_body]
+fn vf_make_ascii_lowercase(s: &mut String) ensures final(s)@ == ascii_lower(old(s)@) { s.make_ascii_lowercase() }
 #[verifier::external_body]
 fn vf_string_is_empty(s: &String) -> (r: bool) ensures r == (s@.len() == 0) { s.is_empty() }
 
@@ -183,6 +189,11 @@ impl CosmeticFilter {
     hostname.push_str(location)
 //@ WITH
     vf_push_str(&mut hostname, location)
+//@ ENDSUBST
+//@ SUBST R6
+    hostname.make_ascii_lowercase()
+//@ WITH
+    vf_make_ascii_lowercase(&mut hostname)
 //@ ENDSUBST
 //@ SUBST R6
     Ok(x) if !x.is_empty() => hostname.push_str(&x),
